@@ -8,11 +8,11 @@ META = {
     'text': 'Kernel-checked for ALL trees and ALL fault plans (any number of simultaneous faults over stat/open-dir/k-th read/open-file/stat-on-open/lazy size stat/.gitignore open): '
             'the engine never panics unless an extractor does; with errors not fatal no fault set fails the scan; the attempts made are those of the fault-free scan minus the '
             'files under/after the failing site; statuses are failed/partial exactly when an attempt failed. Tied to the Go engine through a fault-injecting fs.FS.',
-    'note': 'Trusted as in C01. Fault kinds: one non-permission error class (permission errors differ only in log level). C09_fatal is proved at step level (every reported '
-            'traversal failure is returned when ErrorOnFSErrors) and checked end to end by the correspondence.',
+    'note': 'Trusted as in C01. Fault kinds: one non-permission error class (permission errors differ only in log level). '
+            'C09_fatal: scan error = fs exactly when traversalFaultScan, for all forests and fault plans.',
 }
 THEOREMS = ['Scalibr.Walk.C09_no_panic', 'Scalibr.Walk.C09_nonfatal', 'Scalibr.Walk.C09_contained', 'Scalibr.Walk.C09_surfaced',
-            'Scalibr.Walk.C09_status_meaning', 'Scalibr.Walk.C09_fatal_step', 'Scalibr.Walk.walkNode_stack', 'Scalibr.Walk.mustOne_contained']
+            'Scalibr.Walk.C09_status_meaning', 'Scalibr.Walk.C09_fatal', 'Scalibr.Walk.C09_fatal_step', 'Scalibr.Walk.walkNode_fatal', 'Scalibr.Walk.walkNode_stack', 'Scalibr.Walk.mustOne_contained']
 
 
 def run(ctx):
